@@ -51,28 +51,61 @@ def backoff_formula(ctx, rule='backoff-formula'):
     if extra:
         probs.append('also writes %s' % extra)
     rets = [fmt_sym(b, F.sym_rvalue(d[3], 0, d[1])) for d in b.defs().get(0, []) if d[0] == 'stmt']
-    if sorted(rets) != sorted(['Option::None', 'Option::Some{Clone::clone(&(*self(_1)).current_sleep)}']):
+    SOME = ('Option::Some{Clone::clone(&(*self(_1)).current_sleep)}', 'Option::Some{(*self(_1)).current_sleep}')   # Duration is Copy
+    if not (len(rets) == 2 and 'Option::None' in rets and any(x in SOME for x in rets)):
         probs.append('yields %s, not None / Some(current_sleep)' % rets)
-    # Some(current) is built from the value before the update
-    for bi, blk in enumerate(b.blocks):
-        for si, st in enumerate(blk['s']):
-            if st[0] == '=' and st[1][0] == 1 and st[1][1] and st[1][1][-1] == '.current_sleep':
-                clones = [c for c in b.calls() if c.callee.endswith('Clone::clone') and 'current_sleep' in fmt_sym(b, F.sym_operand(c.args[0]))]
-                if not clones or not all(b.dominates(c.bb, bi) and c.bb != bi for c in clones):
-                    probs.append('the delay handed out is read after current_sleep was doubled')
-    # stop condition
+    # Some(current) is built from the value read before the update
+    wsite = [(bi, si) for bi, blk in enumerate(b.blocks) if not blk['c'] for si, st in enumerate(blk['s'])
+             if st[0] == '=' and st[1][0] == 1 and st[1][1] and st[1][1][-1] == '.current_sleep']
+    wsite += [(bi, len(blk['s'])) for bi, blk in enumerate(b.blocks) if not blk['c'] and blk['t'][0] == 'call' and blk['t'][3][0] == 1 and blk['t'][3][1] and blk['t'][3][1][-1] == '.current_sleep']
+    def read_site(local, depth=0):
+        """where the value that ends up in `local` was read from self.current_sleep"""
+        ds = b.defs().get(local, [])
+        if len(ds) != 1 or depth > 6:
+            return None
+        d = ds[0]
+        if d[0] == 'call':
+            if d[2].callee.endswith('Clone::clone') and 'current_sleep' in fmt_sym(b, F.sym_operand(d[2].args[0])):
+                return (d[1], len(b.stmts(d[1])))
+            return None
+        rv = d[3]
+        if rv[0] == 'use' and rv[1][0] in ('cp', 'mv'):
+            pl = rv[1][1]
+            if pl[0] == 1 and pl[1] and pl[1][-1] == '.current_sleep':
+                return (d[1], d[2])
+            if not pl[1]:
+                return read_site(pl[0], depth + 1)
+        return None
+    for d in b.defs().get(0, []):
+        if d[0] == 'stmt' and d[3][0] == 'agg' and d[3][3] == 'Some':
+            op = d[3][4][0]
+            rs = read_site(op[1][0]) if op[0] in ('cp', 'mv') and not op[1][1] else None
+            if rs is None or not wsite or not all((rs[0] == w[0] and rs[1] < w[1]) or (rs[0] != w[0] and b.dominates(rs[0], w[0])) for w in wsite):
+                probs.append('the delay handed out is not read from current_sleep before current_sleep is doubled')
+    # stop condition: None exactly under "max_retries is Some(max) and max <= retry_count"
+    closure_form = False
     for d in b.defs().get(0, []):
         if d[0] == 'stmt' and fmt_sym(b, F.sym_rvalue(d[3], 0, d[1])) == 'Option::None':
-            lits = [fmt_lit(b, l) for l, e in F.literals_at(d[1], d[2])]
-            if not any(re.search(r'is_some_and\(%s\.max_retries, .*\) == True$' % S, x) for x in lits):
-                probs.append('None is returned without max_retries.is_some_and(..) being true')
+            raw = F.literals_at(d[1], d[2])
+            lits = [fmt_lit(b, l) for l, e in raw]
+            if any(re.search(r'is_some_and\(%s\.max_retries, .*\) == True$' % S, x) for x in lits):
+                closure_form = True
+                continue
+            some = any(re.match(r'^%s\.max_retries is Some$' % S, x) for x in lits)
+            RC, MX = r'%s\.retry_count' % S, r'%s\.max_retries@Some\.0' % S
+            cmp_ok = any(re.match(r'^%s ge %s$' % (RC, MX), x) or re.match(r'^%s le %s$' % (MX, RC), x) for x in lits)
+            if not (some and cmp_ok):
+                probs.append('None is returned under [%s], not under "max_retries is Some(max) and max <= retry_count"' % ', '.join(lits))
     if probs:
         r.fail(rule, 'ExponentialBackoff::next', 'the back-off recurrence is not "yield current; current = min(max, 2 * current)": ' + '; '.join(probs[:3]), loc=b.loc)
     else:
         r.ok(rule, 'ExponentialBackoff::next', 'yields current_sleep, then current_sleep = min(max_sleep, current_sleep.saturating_mul(2)); retry_count saturating; None only when the limit is reached', loc=b.loc)
     # the limit test: max <= retry_count
-    cl = db.find_bodies(r'ExponentialBackoff as std::iter::Iterator>::next::\{closure#0\}$')
-    if cl:
+    cl = db.find_bodies(r'ExponentialBackoff as std::iter::Iterator>::next(::\{closure#\d+\})+$')
+    if not closure_form:
+        if not probs:
+            r.ok(rule, 'limit-test', 'stops when max <= retry_count (tested inline)', loc=b.loc)
+    elif cl:
         Fc = ctx.facts(cl[0])
         ds = cl[0].defs().get(0, [])
         t = fmt_sym(cl[0], Fc.sym_rvalue(ds[0][3], 0, ds[0][1])) if len(ds) == 1 and ds[0][0] == 'stmt' else ''
